@@ -69,3 +69,55 @@ Section P.
       + exact (IH ds' _ i p Hr Hi).
   Qed.
 End P.
+
+(* ---------------------------------------------------------------- union receivers *)
+Section UnionReceiverP.
+  Variable A : Type.
+  Variable nil_t : A.
+  Variable unify : list A -> A.
+
+  Lemma pad_row_length n ds : n <= List.length (pad_row A nil_t n ds).
+  Proof. unfold pad_row. rewrite app_length, repeat_length. lia. Qed.
+
+  Lemma pad_row_nth n ds i : i < n -> nth_error (pad_row A nil_t n ds) i = Some (nth i ds nil_t).
+  Proof.
+    intros H. unfold pad_row. destruct (Nat.lt_ge_cases i (List.length ds)) as [L|L].
+    - rewrite nth_error_app1 by exact L. apply nth_error_nth'. exact L.
+    - rewrite nth_error_app2 by exact L. rewrite (nth_overflow ds nil_t L).
+      rewrite (nth_error_nth' _ nil_t) by (rewrite repeat_length; lia).
+      f_equal. apply nth_repeat.
+  Qed.
+
+  Lemma column_padded n i rows : i < n ->
+    column A i (map (pad_row A nil_t n) rows) = map (fun ds => nth i ds nil_t) rows.
+  Proof.
+    intros H. unfold column. induction rows as [|r rows IH]; cbn [map flat_map]; [reflexivity|].
+    rewrite (pad_row_nth n r i H), IH. reflexivity.
+  Qed.
+
+  Lemma fold_max_ge l : forall a, a <= fold_left Nat.max l a.
+  Proof. induction l as [|x l IH]; intros a; cbn [fold_left]; [lia|]. specialize (IH (Nat.max a x)). lia. Qed.
+  Lemma fold_max_in l x : In x l -> forall a, x <= fold_left Nat.max l a.
+  Proof.
+    induction l as [|y l IH]; intros H a; [destruct H|]. cbn [fold_left]. destruct H as [->|H].
+    - pose proof (fold_max_ge l (Nat.max a x)). lia.
+    - apply IH. exact H.
+  Qed.
+
+  Lemma widest_padded n rows : rows <> [] -> n <= widest A (map (pad_row A nil_t n) rows).
+  Proof.
+    destruct rows as [|r rows]; [congruence|]. intros _. unfold widest. cbn [map].
+    eapply Nat.le_trans; [apply (pad_row_length n r)|]. apply fold_max_in. left. reflexivity.
+  Qed.
+
+  (* each of the n block variables gets the union, over the variants of the receiver, of what the variant's method
+     declares for that position — NilClass where the variant declares fewer parameters *)
+  Theorem union_declared_spec n rows i : rows <> [] -> i < n ->
+    nth_error (union_declared A nil_t unify n rows) i = Some (unify (map (fun ds => nth i ds nil_t) rows)).
+  Proof.
+    intros Hr Hi. unfold union_declared.
+    pose proof (widest_padded n rows Hr) as W.
+    rewrite nth_error_map. rewrite (nth_error_nth' _ 0) by (rewrite seq_length; lia).
+    rewrite seq_nth by lia. cbn [option_map Nat.add]. rewrite (column_padded n i rows Hi). reflexivity.
+  Qed.
+End UnionReceiverP.
